@@ -256,6 +256,13 @@ class Case:
                     else:
                         mode = 'given'
                 input_arr = [(k[0], k[1]) for k in chosen]
+                if invalid is None and rng.random() < 0.4:
+                    # the caller also names a key and a VALUE for an outpoint the wallet knows (a stale or mistaken figure): the wallet's
+                    # record of that output is what counts
+                    kid_of = {(u['txid'], u['output_n']): u['key_id'] for u in w.utxos(min_confirms=0)}
+                    input_arr = [((k[0], k[1], kid_of[k], rng.choice([self.utxos[k][0] * 2 + 1, max(1, self.utxos[k][0] // 2), self.utxos[k][0] + 1000]))
+                                  if k in kid_of and rng.random() < 0.7 else (k[0], k[1])) for k in chosen]
+                    ctx.count('request:given-with-claimed-values')
                 given = chosen
                 maxu = None
         STATE['sizes'], STATE['selects'], STATE['randint'], STATE['parts'], STATE['dirichlet'] = [], [], [], None, None
